@@ -51,10 +51,14 @@ P = {
          "responses every named parameter is stored with the index of the table position its name has - invariant over the handler model incl. "
          "create-then-update), C07_unknown (a position without description changes nothing), C07_request (the payload built for a parameter "
          "addresses index / mixer index / index+1+offset with the parameter's width; control and profile requests), C07_thermostat_partial "
-         "(hole-free thermostat responses give offset t x slots) and C07_thermostat_refuted (the full thermostat clause is false: known finding D8). "
-         "Real EcoMAX / Mixer / Thermostat objects are fed payloads rendered by the Coq spec encoders; the request of EVERY named parameter is "
-         "compared with its table position.",
-         "known finding D8 (thermostat offset with undefined holes) is open; schedule parameters are addressed by schedule name (C18)."),
+         "(hole-free thermostat responses give offset t x slots) and C07_thermostat_refuted (the full thermostat clause is false: known finding D8); "
+         "schedules: C07_schedule_route (every entry of the generated schedule-parameter table is routed, by the part of its name before the first "
+         "'_schedule_', to schedule j/2 - a complete check over the generated tables although some schedule names are prefixes of others), "
+         "C07_schedule_table, C07_schedules_kept (the dataset keeps every schedule any response has listed; the pinned replacement is refuted: D21). "
+         "Real EcoMAX / Mixer / Thermostat objects are fed payloads rendered by the Coq spec encoders (parameter, mixer, thermostat and schedule "
+         "responses, create-then-update); the request of EVERY named parameter is compared with its table position, and the value held under "
+         "each name with the value the latest response carried at that position.",
+         "known finding D8 (thermostat offset with undefined holes) is open."),
  "C08": ("Theorem C08_all_histories (closed): for every tracking oracle, triple, in-range request differing from the held value, retry count and "
          "every finite history of timer expiries and controller reports, the outputs of the set-call model satisfy the monitor of the property "
          "(requested value only, at most `retries` transmissions, one per expiry, refresh iff not tracking, True only after a differing report, False "
@@ -138,7 +142,9 @@ P = {
          "C20_delta (delivered differences sum to last baseline - first value, current value within tolerance of the baseline), C20_aggregate "
          "(delivered sums + pending remainder = sum of inputs), C20_chain (the inner filter of a chain sees exactly the outer filter's deliveries); "
          "real filters run the same sequences with time.monotonic patched, compared delivery by delivery.",
-         "numbers are dyadic rationals (multiples of 1/64) of bounded magnitude, on which CPython float arithmetic and isclose are exact; behaviour under float rounding of arbitrary doubles is modelled, not verified."),
+         "numbers are integers on the grid 2^-60 (multiples of 1/64 of bounded magnitude, and the doubles 0.05, 0.1, 0.2 ... so that a difference of "
+         "exactly one tolerance - the double 0.1 - is expressible); on the generated values CPython float arithmetic and isclose agree with exact "
+         "arithmetic; behaviour under float rounding of arbitrary doubles is not covered."),
 }
 
 def main():
